@@ -269,3 +269,11 @@ func UnknownItx(n, at, steps int) *Scenario {
 	seed = append(seed, FairSeed(seq(n), steps, 4)...)
 	return &Scenario{Name: fmt.Sprintf("unknownitx%d", n), Cfg: sim.Config{N: n}, Seed: seed}
 }
+
+// CommitFault: the static scenario in which node `node`'s application applies its k-th block but the reply is
+// lost (the commit call returns an error to babble).
+func CommitFault(n, steps, node, k int) *Scenario {
+	sc := Static(n, steps)
+	sc.Cfg.CommitFault = map[int]map[int]bool{node: {k: true}}
+	return sc
+}
